@@ -123,6 +123,10 @@ class Task(object):
 
     def decide(self, ctx, path, name, bad, site=None, inputs=None, what='', bound='', timeout_ms=None, extra=(), use_pc=True):
         """discharge one obligation on one path; `inputs(model)` turns a model into replay inputs"""
+        budget = float(os.environ.get('SYMX_TASK_BUDGET_S', '0') or 0)
+        if budget and time.time() - self.t0 > budget:
+            self.ob(name, 'budget-exhausted', 0.0, bound)      # inconclusive: never counted as held
+            return 'unknown', None
         r, m, dt = core.check(ctx, path, bad, timeout_ms=timeout_ms, extra=extra, use_pc=use_pc)
         if r == 'unknown' and not use_pc:
             r, m, dt2 = core.check(ctx, path, bad, timeout_ms=timeout_ms, extra=extra, use_pc=True)
